@@ -373,7 +373,7 @@ def run_call(pool, call, res):
             drawn = [0]
 
             def counting():
-                for i in range(n):
+                for i in range(n + call.get('extra', 0)):          # extra: the input is LONGER than the iterable_len given
                     drawn[0] += 1
                     yield i
             p2 = dict(params)
@@ -401,6 +401,7 @@ def run_call(pool, call, res):
                     time.sleep(d)
                 if drawn[0] != after:
                     idle_draws += 1          # the input advanced while the consumer was not asking
+            worst = max(worst, drawn[0] - delivered)          # ... and nothing more is drawn once everything was delivered
             out['value'] = got
             out['lookahead'] = {'worst': worst, 'idle_draws': idle_draws, 'drawn': drawn[0], 'delivered': delivered}
         elif kind == 'setter':
